@@ -174,6 +174,12 @@ def generate(rng, profile='engine'):
     n = rng.choice([0, 1, 3, 6, 10, 20, 30, 60]) if rng.random() < 0.9 else rng.randint(60, 400)
     if os.environ.get('SIMPEX_TIER') == 'thorough' and rng.random() < 0.3:
         n = rng.randint(100, 1500)
+    if n > 300:
+        # quantified patterns cost O(n^2) per search: keep the number of searches (reads) of a long stream small
+        scn['maxread'] = max(scn['maxread'], 200)
+        scn.pop('tear', None)
+        if scn.get('cap', 65536) < 200:
+            scn.pop('cap', None)
     text = gen_text(rng, n, uni)
     data = text.encode('utf-8') if uni else text.encode('latin-1')
     pieces = cut(rng, data, rng.choice([1, 2, 4, 8, 16]))
@@ -493,12 +499,10 @@ def evaluate(r, clauses=None):
         if s_win < 0:
             if V('C02.genuine', 'match starts outside the search window', call):
                 return out
-            return out
         if exact:
             if after != p or window[s_win:s_win + len(p)] != p or call['match'] != p:
                 if V('C02.genuine', 'after/match is not the literal pattern at the position where before ends', call):
                     return out
-                return out
         else:
             m = call['match']
             m2 = p.match(window, s_win)
@@ -512,7 +516,6 @@ def evaluate(r, clauses=None):
             if not ok:
                 if V('C02.genuine', 'match object / after do not describe an occurrence of pattern %d at the end of before' % idx, call):
                     return out
-                return out
         for j, q in _text_pats(plist):
             if exact:
                 n = window.find(q)
@@ -525,11 +528,9 @@ def evaluate(r, clauses=None):
             if qs < s_win:
                 if V('C02.leftmost', 'pattern %d occurs at %d, earlier than the reported match at %d' % (j, qs, s_win), call):
                     return out
-                return out
             if qs == s_win and j < idx:
                 if V('C02.tie', 'pattern %d also matches at %d and is listed before %d' % (j, qs, idx), call):
                     return out
-                return out
         # C03: naive model
         if res['kind'] != 'match':
             if V('C03.phantom', 'match reported but the naive search finds none', call):
